@@ -71,3 +71,6 @@ use group::*;
 
 mod run;
 pub use run::*;
+
+#[cfg(feature = "verif")]
+pub mod verif;
